@@ -563,3 +563,55 @@ def f9_functions():
     ]
     for p in progs:
         yield "F9", p, None
+
+
+# ---------------------------------------------------------------------------
+# F7b: comprehension clause orders with traced (order-observable) conditions, up to 4 clauses
+
+def f7b_traced():
+    pre = "def t(k, v):\n    emit(k)\n    return v\na = 70\nb = 80\n"
+    clauses = ["for a in [1, 2]", "for b in [0, 1, 2]", "if t(1, a != 2)", "if t(2, b)", "if t(3, a > b)", "if t(4, 6 // b)",
+               "for b in t(5, [a, 0])"]
+    for n in (1, 2, 3, 4):
+        for cl in itertools.product(clauses, repeat=n):
+            if not cl[0].startswith("for a"):
+                continue
+            if sum(c.startswith("for") for c in cl) > 2:
+                continue
+            body = " ".join(cl)
+            yield "F7b", pre + f"emit([(a, b) {body}])\n", None
+            if n >= 3:
+                yield "F7b", pre + f"emit({{(a, b): a {body}}})\n", None
+
+
+# ---------------------------------------------------------------------------
+# F10: sizes around internal thresholds (small-map index at 16/17, insertion sort at 20/21, 32/33, 64/65)
+
+SIZES = [0, 1, 2, 7, 8, 9, 15, 16, 17, 18, 19, 20, 21, 22, 31, 32, 33, 34, 40, 63, 64, 65, 100]
+
+
+def f10_sizes():
+    for n in SIZES:
+        yield "F10.sort", f"l = [(i * 37 % 11, i) for i in range({n})]\nemit(sorted(l, key=lambda p: p[0]))\n" \
+            f"emit(sorted(l, key=lambda p: p[0], reverse=True))\nemit(sorted(range({n}), key=lambda x: x % 3))\n" \
+            f"emit(sorted(l))\nemit(sorted([p[0] for p in l], reverse=True))\nemit(sorted(l, key=lambda p: -p[0] // 3))\n", None
+        yield "F10.minmax", f"l = [(i * 37 % 7, i) for i in range({n})]\nemit(max(l, key=lambda p: p[0]) if l else 0)\n" \
+            f"emit(min(l, key=lambda p: p[0]) if l else 0)\nemit(max(l) if l else 0)\nemit(min(l) if l else 0)\n", None
+        yield "F10.dict", f"d = {{}}\nfor i in range({n}):\n    d[i * 7 % 23 if i % 3 else str(i)] = i\nemit(d)\n" \
+            f"ks = list(d.keys())\nfor k in ks[::3]:\n    d.pop(k)\nemit(d)\nfor k in ks[:5]:\n    d[k] = -1\nemit(d)\n" \
+            f"emit([k in d for k in ks])\nemit([d.get(k) for k in ks])\nemit(list(d.items())[-3:])\nemit(len(d))\n" \
+            f"e = dict(d)\ne.update({{'z': 1}})\nemit([list(e.keys())[:4], len(e), e == d])\n" \
+            f"emit(dict(d, zz=1, a=2) == dict(list(d.items()) + [('zz', 1), ('a', 2)]))\n" \
+            f"emit({{k: v for k, v in d.items() if v != -1}})\n", None
+        yield "F10.dict2", f"d = {{i: i for i in range({n})}}\nif {n} > 1:\n    d.pop({n} - 2)\n    emit(d.get({n} - 1))\n" \
+            f"    d[{n} - 1] = 'new'\n    emit(d[{n} - 1])\n    emit(list(d.keys())[-2:])\nemit(d)\n" \
+            f"d[-1] = 0\nemit(list(d.keys()))\nd.clear()\nd[5] = 5\nemit(d)\n", None
+        yield "F10.list", f"l = list(range({n}))\nemit(l[::-1])\nemit(l[1::2])\nemit(l[-3:])\nl.insert({n} // 2, 'm')\nemit(l)\n" \
+            f"l.extend(l[:2])\nemit(l)\nemit([l.index(x) for x in l[:3]])\nemit(l * 2 == l + l)\nemit(list(reversed(l)))\n" \
+            f"emit(list(enumerate(l))[-2:])\nemit(list(zip(l, l[1:]))[-2:])\nemit(any(l))\nemit(all(l))\n", None
+        yield "F10.str", f"s = ','.join([str(i) for i in range({n})])\nemit(s)\nemit(s.split(','))\nemit(s.rsplit(',', 2))\n" \
+            f"emit(s.find('9,'))\nemit(s.count('1'))\nemit(s.replace('1', 'xy', 3))\nemit(len(s))\nemit(s[::-2])\n" \
+            f"emit(('%s' * {n}) % tuple(range({n})) if {n} else '')\nemit(s.upper().lower() == s)\nemit(s.partition('5'))\n" \
+            f"emit('ab' * {n})\nemit(('ab' * {n}).rfind('ba'))\nemit(s.startswith('0,1') or {n} < 2)\n", None
+        yield "F10.tuple", f"t = tuple(range({n}))\nemit(t)\nemit(t + t == t * 2)\nemit(t[::-1][:4])\nemit(len(t))\n" \
+            f"emit({n} - 1 in t)\nemit(t < t + (0,))\nemit(sorted(t, reverse=True)[:3])\n", None
